@@ -144,5 +144,5 @@ def run(case, rec):
 
 
 def parts(ctx):
-    return [Part('documents', run, strategy=documents(), n=ctx.n(500, 6000), budget_s=ctx.n(150, 3000)),
+    return [Part('documents', run, strategy=documents(), n=ctx.n(1000, 8000), budget_s=ctx.n(150, 3000)),
             Part('documents_wild', run, strategy=documents(wild=True), n=ctx.n(100, 1500), budget_s=ctx.n(60, 1500))]
